@@ -476,7 +476,7 @@ class _ReuseFlow(Workflow):
         return _StopEv()
 
 
-def _shape(state) -> list:
+def _state_shape(state) -> list:
     return [bool(state.is_running)] + [(n, len(ws.queue), len(ws.in_progress), sorted(ws.collected_events), len(ws.collected_waiters))
                                        for n, ws in sorted(state.workers.items())]
 
@@ -510,7 +510,7 @@ def ob_fresh_run_after_a_resume_on_the_same_object(q: int, resumes: int, buffere
             _BS.from_serialized(_SerCtx.from_dict_auto(_json.loads(wire)), wf, ser)
         fresh = _BS.from_workflow(wf)
         pristine = _BS.from_workflow(_ReuseFlow(disable_validation=True))
-        return _shape(fresh), _shape(pristine)
+        return _state_shape(fresh), _state_shape(pristine)
 
     got, want = native(scenario)
     return got == want
